@@ -25,6 +25,7 @@ import (
 	"github.com/olive-io/bpmn/v2/pkg/data"
 	"github.com/olive-io/bpmn/v2/pkg/event"
 	"github.com/olive-io/bpmn/v2/pkg/tracing"
+	"github.com/olive-io/bpmn/v2/pkg/verifhook"
 )
 
 type ProcessSet struct {
@@ -106,6 +107,7 @@ func (ps *ProcessSet) StartAll(ctx context.Context) error {
 			return fmt.Errorf("start process %s: %w", process.Id().String(), err)
 		}
 
+		verifhook.Point("processset.startall")
 		ps.wg.Add(1)
 		go ps.tracerProcess(ctx, process, &ps.wg)
 	}
